@@ -5,6 +5,8 @@ import Fx.Eval
 import Fx.XGen
 import Fx.GenDriver
 import Fx.OutputOk
+import Fx.Supported
+import Fx.Lemmas.Consumed
 namespace Fx
 
 structure Loaded where
@@ -75,7 +77,8 @@ def outputOkRequest (f : List String) : String :=
        (match Ast.new t with
         | .ok a =>
           (match generateModule a with
-           | .ok m => "ok outputok=" ++ toString (outputOk a m) ++ " plansok=" ++ toString m.plans.Ok
+           | .ok m => "ok outputok=" ++ toString (outputOk a m) ++ " plansok=" ++ toString m.plans.Ok ++
+               " sizeexact=" ++ toString m.plans.SizeExact' ++ " supported=" ++ toString (Supported a)
            | _ => "nogen")
         | _ => "nogen")
      | none => "bad-op")
